@@ -98,6 +98,9 @@ const EQUATIONS: &[&str] = &[
     "ab,ab->",
     "abc->acb",
     "abcd,cd->ab",
+    "ii->i",
+    "ii",
+    "ii->",
 ];
 
 pub fn einsum() -> BS<Spec> {
@@ -328,6 +331,15 @@ pub fn softmax(op: &'static str) -> BS<Spec> {
             let spec = Spec::new(op, vec![tf(fd, &s, p.fs(numel(&s), 0), p.pl(0))]);
             match form {
                 0 => spec, // default axis -1
+                // opset 11: the input is coerced to 2-D at `axis` (default 1) and
+                // normalised over all trailing dims
+                3 if s.len() >= 2 => {
+                    if p.flag(1) {
+                        spec.opset(11)
+                    } else {
+                        spec.opset(11).ai("axis", a)
+                    }
+                }
                 _ => spec.ai("axis", a),
             }
         })
@@ -422,10 +434,14 @@ pub fn resize() -> BS<Spec> {
                 (In::None, tvec(&sz, p.pl(2)))
             } else {
                 // keep at least one output element per axis
+                // Only scales for which n*scale is an integer: otherwise the scale used by the
+                // coordinate transformation is either the given one (reference implementation) or
+                // length_resized/length_original (specification text) and the two readings differ.
                 let pick = |k: usize, n: usize| -> f32 {
                     let sc = nice[p.pick(k, 8)];
-                    if (n as f32 * sc).floor() < 1.0 {
-                        1.0
+                    let prod = n as f32 * sc;
+                    if prod < 1.0 || prod.fract() != 0.0 {
+                        [1.0f32, 2.0, 3.0][p.pick(k + 2, 3)]
                     } else {
                         sc
                     }
